@@ -15,6 +15,73 @@ POLL_FN = ("futures::stream::poll_fn", "futures::future::poll_fn", "std::future:
 # ---------------------------------------------------------------------------
 # T1
 
+def holder_enums(ctx):
+    """crate-local enums that hold a channel sender the way `Option<Sender>` does: one variant with a `Sender` field, every other
+    variant without fields (`enum FnDoneTx { Open(Sender<FnId>), Closed }`)"""
+    m = ctx.model
+    cached = getattr(m, "_holder_enums", None)
+    if cached is not None:
+        return cached
+    out = set()
+    for name, adt in ctx.fb.adts.items():
+        if adt.get("kind") != "Enum" or adt.get("public"):
+            continue
+        with_fields = [v for v in adt["variants"] if v["fields"]]
+        if len(with_fields) == 1 and len(adt["variants"]) >= 2 and \
+                any("mpsc::Sender" in f["ty"]["s"] or "mpsc::bounded::Sender" in f["ty"]["s"] for f in with_fields[0]["fields"]):
+            out.add(name)
+    m._holder_enums = out
+    return out
+
+
+def holder_ty(ctx, ty):
+    """is `ty` (behind references / a lock guard) a sender or a sender-holding enum"""
+    if "mpsc::Sender" in ty or "mpsc::bounded::Sender" in ty:
+        return True
+    return any(h in ty for h in holder_enums(ctx))
+
+
+def closer_helpers(ctx):
+    """private methods that do to a sender-holding enum what `Option::take` does: `fn close(&mut self) { *self = Self::Closed }`"""
+    m, fb = ctx.model, ctx.fb
+    cached = getattr(m, "_closer_helpers", None)
+    if cached is not None:
+        return cached
+    out = set()
+    hs = holder_enums(ctx)
+    for b in fb.prod_bodies():
+        if b.kind != "fn" or b.arg_count < 1 or (fb.fns.get(b.id) or {}).get("public") or list(b.calls()):
+            continue
+        t1 = b.locals[1]["s"]
+        if not t1.startswith("&mut ") or t1[5:].split("<")[0].strip() not in hs:
+            continue
+        stores = [(bb, s_) for bb, si, s_ in b.stmts() if s_["k"] == "assign" and s_["pl"]["l"] == 1 and s_["pl"]["p"] == ["*"]]
+        if len(stores) == 1 and not b.back_edges():
+            rv_ = stores[0][1]["rv"]
+            if rv_["k"] == "use" and rv_["op"]["k"] in ("move", "copy") and not rv_["op"]["pl"]["p"]:
+                d_ = get_defs(b).unique_full(rv_["op"]["pl"]["l"])
+                if d_ and d_[0] == "stmt":
+                    rv_ = d_[3]["rv"]
+            if rv_["k"] == "agg" and rv_.get("def") in hs and not rv_["ops"] and b.dominates(stores[0][0], b.exits()[0] if b.exits() else stores[0][0]):
+                out.add(b.id)
+    m._closer_helpers = out
+    return out
+
+
+def payload_variant(ctx, body, e):
+    """discriminant value (as text) of the variant that carries the sender in the holder value `e`: 1 (`Some`) for an Option, the
+    index of the variant with fields for a crate-local sender-holding enum"""
+    hs = holder_enums(ctx)
+    idx = set()
+    for x in sources_of_expr(ctx, body, e):
+        if x.kind == "agg" and x[4] in hs:
+            adt = ctx.fb.adts[x[4]]
+            idx.add(str([i for i, v in enumerate(adt["variants"]) if v["fields"]][0]))
+    if len(idx) == 1:
+        return list(idx)[0]
+    return "1" if not idx else "?"
+
+
 def release_sites(ctx):
     """Sites that give up a protocol sender: Option::take / mem::drop whose
     receiver has DONE or READY sender provenance.  Cached per model."""
@@ -23,17 +90,24 @@ def release_sites(ctx):
     if cached is not None:
         return cached
     out = []
+    closers = closer_helpers(ctx)
+    hs_enums = holder_enums(ctx)
     for b in fb.prod_bodies():
+        if b.id in closers:
+            continue
         for bb, t in b.calls():
             p = callee_path(t)
-            if p not in (TAKE, "std::mem::drop", "std::mem::take", "std::mem::replace") or b.blocks[bb].get("cleanup"):
+            if p not in (TAKE, "std::mem::drop", "std::mem::take", "std::mem::replace") and p not in closers or b.blocks[bb].get("cleanup"):
                 continue
             a0 = t["args"][0]
             if a0["k"] == "const":
                 continue
-            if "mpsc::Sender" not in a0["pl"]["ty"] and "mpsc::bounded::Sender" not in a0["pl"]["ty"]:
+            if not holder_ty(ctx, a0["pl"]["ty"]):
                 continue
-            roles, other = m.roles_of_sources(fl.sources_operand(b, a0), half=0)
+            if p in closers:
+                roles = holder_roles(ctx, b, e=expr_operand(b, a0))
+            else:
+                roles, other = m.roles_of_sources(fl.sources_operand(b, a0), half=0)
             roles.discard(None)
             if not roles:
                 continue
@@ -69,12 +143,12 @@ def release_sites(ctx):
                 d_ = get_defs(b).unique_full(rv_["op"]["pl"]["l"])
                 if d_ and d_[0] == "stmt":
                     rv_ = d_[3]["rv"]
-            if rv_["k"] != "agg" or rv_.get("variant") != "None" or rv_["ops"]:
+            if rv_["k"] != "agg" or rv_["ops"] or not (rv_.get("variant") == "None" or rv_.get("def") in hs_enums):
                 continue
             if not s_["pl"]["p"] and len(get_defs(b).of(s_["pl"]["l"])) < 2:
                 continue      # the temporary itself
             ty = s_["pl"]["ty"]
-            if "mpsc::Sender" not in ty and "mpsc::bounded::Sender" not in ty:
+            if not holder_ty(ctx, ty):
                 continue
             # provenance of what the place held: other definitions of the same place
             roles = holder_roles(ctx, b, place=s_["pl"])
@@ -1326,7 +1400,7 @@ def U1(ctx, rule="U1"):
                     de = switch_expr(xb, sb)
                     if de.kind == "discr":
                         roles = holder_roles(ctx, xb, strip_refs(de[1]))
-                        if "DONE" in roles and vals == frozenset(["1"]):
+                        if "DONE" in roles and vals == frozenset([payload_variant(ctx, xb, strip_refs(de[1]))]):
                             g2 = True
         ctx.check(g2, rule, "end-guard|%s" % key, m.where(cb),
                   "READY is polled only while the done-sender is still held; afterwards the stream ends with Ready(None)",
